@@ -305,6 +305,13 @@ class Core(object):
     def add_region(self, r):
         self.state.addRegion(make_region(r))
 
+    def api(self, command, data):
+        """The one request the core layer models: a deletion (the plugin would refuse it during a print unless shrinking is allowed)."""
+        if command == "deleteExcludeRegion":
+            self.state.deleteRegion(data.get("id"))
+            return None
+        raise ValueError(command)
+
     def gcode(self, cmd):
         """Returns (raw result, normalised output list, arc samples or None)."""
         gc, sub = hook_gcode(cmd)
